@@ -27,8 +27,8 @@ class C10(Prop):
     rule = 'pairs (and triples) of legend-free, tag-free, quote-free diagrams from the grid / example / shape generators placed side by side or stacked with gaps 1..3 (plus tall shapes beside many-word paragraphs); each item renders A, B and the juxtaposition; non-trivial when both parts have at least one element'
     level_text = ('Theorems C10_loop_commutes_with_restriction (M3 for the whole merge loop, relative to an invariant), C10_a_blank_column_separates / C10_a_blank_row_separates, C10_groups_of_a_part (the groups of cells of one part are exactly the groups of the whole that lie in it), '
                   'C10_fragments_come_from_their_group (provenance through the whole recognition pipeline), C10_a_part_is_the_restriction_of_the_whole (for every separated drawing the accepted fragments and contact groups of a part are those of the whole coming from its cells, in the same order), C10_parts_succeed_together, '
-                  'C10_stacked_drawings / C10_stacked_document / C10_stacked_canvas (from the text: a drawing stacked on another, g blank lines apart, is recognised as the two drawings, with order; for g >= 2 its drawing nodes are those of the upper drawing and those of the lower one moved, on a canvas covering both), C10_a_part_renders_the_same_anywhere (C06), C10_enclosure_stays_inside_a_part / C10_nodes_of_the_parts (the enclosure pass, given that no fragment of one part fits in the bounds of a fragment of the other). For all drawings.')
-    level_note = 'side-by-side placement at the text stage, its no-fit hypothesis and a stacking gap of one line are covered by correspondence plus oracle'
+                  'C10_stacked_drawings / C10_stacked_document / C10_stacked_canvas (from the text: a drawing stacked on another, g blank lines apart, is recognised as the two drawings, with order; for g >= 2 its drawing nodes are those of the upper drawing and those of the lower one moved, on a canvas covering both), C10_side_by_side (from the cell map: two parts with two blank columns between them are drawn as the two parts, the right one moved; generic form parts_drawing), C10_a_part_renders_the_same_anywhere (C06), C10_enclosure_stays_inside_a_part / C10_nodes_of_the_parts (the enclosure pass, given that no fragment of one part fits in the bounds of a fragment of the other). For all drawings.')
+    level_note = 'the text stage of side-by-side placement and gaps of one line or one column are covered by correspondence plus oracle'
     def make(self, gen, A, B, gap, how, C=None):
         A = A or ['']; B = B or ['']
         if how == 'side':
